@@ -941,6 +941,9 @@ func (vc *VC) callByContract(fr *frame, st *State, ct *Contract, fo *types.Func,
 			// contexts small when they do not need P; assuming less is sound)
 			continue
 		}
+		if strings.HasPrefix(en.Label, "assumed-") && vc.Trusted != nil {
+			vc.Trusted["assumed postcondition of "+short+": "+en.Text] = true
+		}
 		vc.assume(st, mkEnv(st, old, old.alloc).evalBool(en.Expr))
 	}
 	if fr != nil {
